@@ -581,7 +581,14 @@ impl<T: Config> P2PSession<T> {
         self.confirmed_frame() >= self.sync_layer.current_frame()
     }
 
+    #[cfg_attr(ggrs_verif, allow(unreachable_code))]
     fn yield_lockstep_wait() {
+        // verification hook: the virtual clock advances (and in-flight packets arrive) here
+        #[cfg(ggrs_verif)]
+        {
+            instant::verif_yield();
+            return;
+        }
         #[cfg(not(target_arch = "wasm32"))]
         std::thread::yield_now();
     }
